@@ -299,6 +299,93 @@ theorem trimRight0_spec (l : Text) :
       have := dropWhile_result hd
       subst hc; simpa using this
 
+/-- every character is `0` (also true of the empty text) -/
+def AllZero (l : Text) : Prop := ∀ c ∈ l, c = '0'
+
+instance (l : Text) : Decidable (AllZero l) := inferInstanceAs (Decidable (∀ c ∈ l, c = '0'))
+
+theorem trimRight0_allDig {F : Text} (h : AllDig F) : AllDig (trimRight0 F) := by
+  obtain ⟨k, hk, _⟩ := trimRight0_spec F
+  have h' : AllDig (trimRight0 F ++ List.replicate k '0') := by rw [← hk]; exact h
+  exact h'.left
+
+theorem trimRight0_eq_nil_iff (F : Text) : trimRight0 F = [] ↔ AllZero F := by
+  constructor
+  · intro h
+    obtain ⟨k, hk, _⟩ := trimRight0_spec F
+    rw [h, List.nil_append] at hk
+    intro c hc; rw [hk] at hc; exact (List.mem_replicate.1 hc).2
+  · intro h
+    unfold trimRight0
+    rw [dropWhile_all (fun c hc => by simp [h c (List.mem_reverse.1 hc)])]; rfl
+
+/-- a text that does not end in `0` is left alone by `TrimRight(_, "0")` -/
+theorem trimRight0_of_last {F : Text} (h : ∀ c, F.getLast? = some c → c ≠ '0') : trimRight0 F = F := by
+  unfold trimRight0
+  cases hr : F.reverse with
+  | nil => simp [List.reverse_eq_nil_iff.1 hr]
+  | cons x t =>
+    have hx : F.getLast? = some x := by rw [← List.head?_reverse, hr]; rfl
+    rw [dropWhile_head x t (by simpa using h x hx), ← hr, List.reverse_reverse]
+
+/-- the trimmed fraction fits into `s` digits exactly when every digit beyond the `s`-th is a zero -/
+theorem trimRight0_len_iff (s : Nat) (F : Text) : (trimRight0 F).length ≤ s ↔ AllZero (F.drop s) := by
+  obtain ⟨k, hk, hlast⟩ := trimRight0_spec F
+  constructor
+  · intro hl c hc
+    have hd : F.drop s = List.replicate (k - (s - (trimRight0 F).length)) '0' := by
+      conv => lhs; rw [hk]
+      rw [List.drop_append, List.drop_of_length_le hl, List.drop_replicate, List.nil_append]
+    rw [hd] at hc; exact (List.mem_replicate.1 hc).2
+  · intro hz
+    apply Nat.le_of_not_lt
+    intro hlt
+    have hd : F.drop s = (trimRight0 F).drop s ++ List.replicate k '0' := by
+      conv => lhs; rw [hk]
+      rw [List.drop_append_of_le_length (Nat.le_of_lt hlt)]
+    have hne : (trimRight0 F).getLast? ≠ none := by
+      rw [Ne, List.getLast?_eq_none_iff]; intro e; rw [e] at hlt; simp at hlt
+    cases hg : (trimRight0 F).getLast? with
+    | none => exact hne hg
+    | some c =>
+      have h1 : ((trimRight0 F).drop s).getLast? = some c := by
+        rw [List.getLast?_drop, if_neg (Nat.not_le.2 hlt), hg]
+      have h2 : c ∈ F.drop s := by
+        rw [hd]; exact List.mem_append_left _ (List.mem_of_getLast? h1)
+      exact hlast c hg (hz c h2)
+
+/-- reading the trimmed fraction scaled up to `s` digits is reading the first `s` fraction digits -/
+theorem trimRight0_value (s : Nat) (I F : Text) (hl : (trimRight0 F).length ≤ s) :
+    ofDigits (I ++ trimRight0 F) * 10 ^ (s - (trimRight0 F).length) =
+      ofDigits (I ++ F.take s) * 10 ^ (s - (F.take s).length) := by
+  obtain ⟨k, hk, _⟩ := trimRight0_spec F
+  have ht : F.take s = trimRight0 F ++ List.replicate (min (s - (trimRight0 F).length) k) '0' := by
+    conv => lhs; rw [hk]
+    rw [List.take_append, List.take_of_length_le hl, List.take_replicate]
+  rw [ht, ← List.append_assoc, ofDigits_append (I ++ trimRight0 F), ofDigits_replicate_zero, Nat.add_zero,
+    List.length_replicate, List.length_append, List.length_replicate, Nat.mul_assoc, ← Nat.pow_add]
+  congr 2
+  omega
+
+/-- the first `s` fraction digits, scaled, are the exact value when the digits beyond are zeros
+(cross-multiplied: `scaled / 10^s = ofDigits (I ++ F) / 10^|F|`) -/
+theorem take_value_exact (s : Nat) (I F : Text) (hz : AllZero (F.drop s)) :
+    ofDigits (I ++ F.take s) * 10 ^ (s - (F.take s).length) * 10 ^ F.length = ofDigits (I ++ F) * 10 ^ s := by
+  have hF : F = F.take s ++ F.drop s := (List.take_append_drop s F).symm
+  have hd : F.drop s = List.replicate (F.drop s).length '0' := by
+    rw [List.eq_replicate_iff]; exact ⟨rfl, hz⟩
+  have hlen : F.length = (F.take s).length + (F.drop s).length := by
+    conv => lhs; rw [hF]
+    rw [List.length_append]
+  have hv : ofDigits (I ++ F) = ofDigits (I ++ F.take s) * 10 ^ (F.drop s).length := by
+    conv => lhs; rw [hF]
+    rw [← List.append_assoc, ofDigits_append (I ++ F.take s), hd, ofDigits_replicate_zero, List.length_replicate,
+      Nat.add_zero]
+  have hts : (F.take s).length ≤ s := by simp [List.length_take]; omega
+  rw [hv, hlen, Nat.mul_assoc, Nat.mul_assoc, ← Nat.pow_add, ← Nat.pow_add]
+  congr 2
+  omega
+
 theorem trimLeft0_replicate (k : Nat) : trimLeft0 (List.replicate k '0') = [] :=
   dropWhile_all (by intro c hc; simp [List.mem_replicate] at hc; simp [hc.2])
 
